@@ -705,8 +705,48 @@ class StmtMixin:
             if hk not in st.heap:
                 pass
 
+        # 2b. frame inference: re-probe with only the modified keys havocked; if every write to a Ref-indexed array in one iteration is a
+        #     Store at loop-invariant references (terms free of havocked constants), an arbitrary number of iterations changes the array
+        #     at those references only -> havoc pointwise instead of the whole array.
+        pointwise: Dict[object, List] = {}
+        self.emit = False
+        try:
+            probe2 = havoc(st, [k for k in modified if k in st.heap], assigned)
+            for lbl, g in inv_clauses(probe2):
+                probe2.assume(g)
+            cand: Dict[object, Optional[List]] = {}
+            for k, s1, c in guard(probe2):
+                if k == "raise":
+                    continue
+                s1 = s1.copy()
+                s1.assume(c)
+                for k2, s2, _ in body(s1):
+                    for hk in modified:
+                        if hk not in probe2.heap or hk not in s2.heap:
+                            cand[hk] = None
+                            continue
+                        idx = self.store_indices(s2.heap[hk], probe2.heap[hk])
+                        if idx is None or any(self.mentions_havocked(i) for i in idx):
+                            cand[hk] = None
+                        elif cand.get(hk, []) is not None:
+                            cur = cand.setdefault(hk, [])
+                            for i in idx:
+                                if not any(i.eq(x) for x in cur):
+                                    cur.append(i)
+            pointwise = {hk: v for hk, v in cand.items() if v is not None and hk in st.heap and st.heap[hk].sort().domain() == V.Ref}
+        except OutOfSubset:
+            pointwise = {}
+        finally:
+            self.emit = saved_emit
+            del self.vcs[saved_vcs:]
+
         # 3. the real pass: havoc modified heap keys + assigned locals, assume invariant, run guard+body, check invariant at back edges
-        h = havoc(st, [k for k in modified if k in st.heap], assigned)
+        h = havoc(st, [k for k in modified if k in st.heap and k not in pointwise], assigned)
+        for hk, idxs in pointwise.items():
+            arr = st.heap[hk]
+            for i in idxs:
+                arr = z3.Store(arr, i, z3.Const(V.fresh_name("Hp_" + "_".join(str(x) for x in (hk if isinstance(hk, tuple) else (hk,)))), arr.sort().range()))
+            h.heap[hk] = arr
         # names assigned in the body but unbound at entry stay unbound (python would raise UnboundLocalError after zero iterations)
         for lbl, g in inv_clauses(h):
             h.assume(g)
@@ -735,6 +775,35 @@ class StmtMixin:
                 else:
                     out.append((k2, s2, v2))
         return out
+
+    @staticmethod
+    def store_indices(term, base) -> Optional[List]:
+        """Index terms of a Store/If tree over `base`; None if the term has any other shape."""
+        if term.eq(base):
+            return []
+        if z3.is_app(term) and term.decl().kind() == z3.Z3_OP_STORE:
+            rest = StmtMixin.store_indices(term.arg(0), base)
+            return None if rest is None else rest + [term.arg(1)]
+        if z3.is_app(term) and term.decl().kind() == z3.Z3_OP_ITE:
+            a, b = StmtMixin.store_indices(term.arg(1), base), StmtMixin.store_indices(term.arg(2), base)
+            return None if a is None or b is None else a + b
+        return None
+
+    @staticmethod
+    def mentions_havocked(t) -> bool:
+        seen = set()
+        todo = [t]
+        while todo:
+            x = todo.pop()
+            if x.get_id() in seen:
+                continue
+            seen.add(x.get_id())
+            if z3.is_const(x) and x.decl().kind() == z3.Z3_OP_UNINTERPRETED:
+                n = x.decl().name()
+                if n.startswith("Hl_") or n.startswith("L_") or n.startswith("Hp_"):
+                    return True
+            todo.extend(x.children())
+        return False
 
     def loop_frame_facts(self, entry: State, h: State, modified) -> None:
         """Allocation only grows across iterations."""
